@@ -175,6 +175,9 @@ def run(ctx):
     n_sweep = 60 if thorough else 12
     if os.path.exists(os.path.join(core.COQ, "Props", "C01.v")):
         core.check_props(ctx, PROPS)
+        from vlib import ties2
+        # verify_metadata_signatures regenerated from the source (its two outside calls as oracles) = the model's gate
+        ties2.run_flag(ctx, "--layout-signatures", "Fun01.v", "Tie/C01.v")
     # syntactic ties regenerated from the working tree: stage order and the shape of the stage functions
     vskel.check(ctx, ("verify", "signatures", "expiry"))
     state = {"sweeps": 0, "bases": 0}
